@@ -56,10 +56,11 @@ pub fn is_singleline_comment(k: TokenType) -> bool {
     matches!(k, TokenType::Comment(CommentKind::InlineLine | CommentKind::IndividualLine))
 }
 
+/// a line break: LF or CR (the lexer ends a line comment at either)
 fn contains_lf(s: &[u8]) -> bool {
     let mut i = 0;
     while i < s.len() {
-        if s[i] == b'\n' {
+        if s[i] == b'\n' || s[i] == b'\r' {
             return true;
         }
         i += 1;
